@@ -47,10 +47,13 @@ def gen_cases(rng, tier: str) -> list[dict]:
     cases = []
     stream = common.expr_stream(rng, tier, common.sizes(tier, 500, 6000), share=0.3)
     for origin, e in stream:
+        prior: list[str] = []
         for p in common.points_for(rng, e, 3 if tier == "quick" else 5, extra=0.2):
             c = common.make_eval_case(origin, e, p)
             nvars = len(e._variable_names)
             c["entry"] = "number" if nvars <= 1 and rng.random() < 0.4 else "point"
+            c["prior"] = prior[:]          # points the same object was evaluated at before
+            prior.append(c["p"])
             cases.append(c)
     return cases + k3_points(tier)
 
@@ -60,6 +63,8 @@ def check_cases(cases: list[dict], rep: Report, known: dict) -> None:
     for c in cases:
         e = wire.build_raw(c["e"])
         p = wire.build_point(c["p"])
+        for q in c.get("prior", []):
+            call(e.at, wire.build_point(q))
         if c.get("entry") == "number" and len(e._variable_names) <= 1:
             names = sorted(e._variable_names)
             t = p._coordinates.get(names[0], 1) if names else 1
